@@ -22,6 +22,8 @@ func init() {
 			"Decides these necessary conditions; does not decide linearizability or cross-backend value equality.",
 		Run: runC13,
 		Mutants: []Mutant{
+			{Name: "setlist-empty-returns-early", File: "internal/core/storage/redis/redis_ops.go", Rule: "R-C13-4",
+				Old: "\t// 删除现有列表\n\tr.client.Del(ctx, key)\n", New: "\tif len(values) == 0 {\n\t\treturn nil\n\t}\n\t// 删除现有列表\n\tr.client.Del(ctx, key)\n"},
 			{Name: "cas-unguarded-expiry-compare", File: "internal/core/storage/memory/memory_ops.go", Rule: "R-C13-2",
 				Old: "if !item.Expiration.IsZero() && time.Now().After(item.Expiration) {\n\t\tdelete(m.data, key)\n\t\tif oldValue == nil {",
 				New: "if time.Now().After(item.Expiration) {\n\t\tdelete(m.data, key)\n\t\tif oldValue == nil {"},
